@@ -111,3 +111,19 @@ func dominatesInstr(a, b ssa.Instruction) bool {
 	}
 	return ba.Dominates(bb)
 }
+
+// relsResolved is rels with the phi nodes of the conditions resolved along the path (the value of
+// `a && b` in a switch case is a phi of false and b).
+func (pt cfgPath) relsResolved() relSet {
+	out := relSet{}
+	for _, f := range pt.Facts {
+		cond := resolveOnPathAt(pt, f.Cond, f.At, false)
+		if _, ok := cond.(*ssa.Const); ok {
+			continue
+		}
+		if s, ok := relOf(fact{Cond: cond, Val: f.Val}); ok {
+			out[s] = true
+		}
+	}
+	return out
+}
